@@ -1,5 +1,6 @@
 (* C12 — default values are the SSZ zero values.  Property theorems only. *)
-Require Import RM.Base RM.Tree RM.Types RM.Spec RM.ModelViews RM.DefaultProofs.
+Require Import RM.Base RM.Tree RM.Types RM.Spec RM.ModelViews RM.ModelCodec RM.DefaultProofs RM.DefaultEq.
+Local Open Scope N_scope.
 
 (* the type's default backing tree has the hash-tree-root of the SSZ zero value, for every type *)
 Theorem C12_default_node : forall H t, wf_ty t = true ->
@@ -19,7 +20,33 @@ Example C12_nonvacuous :
   wf_ty (TContainer [TVector (TUint 2) 17; TBitvector 513; TUnion false [TList TBool 9]]) = true.
 Proof. reflexivity. Qed.
 
+(* the default backing is the very tree the constructor builds for the zero value *)
+Theorem C12_default_is_constructed : forall H t, wf_ty t = true -> default_node H t = mk H t (zero_val t).
+Proof. exact default_eq_mk. Qed.
+
+(* its encoding is the zero value's encoding (and its root the zero value's root) *)
+Theorem C12_default_encoding : forall H src t, wf_ty t = true ->
+  exists n, default_node H t = Ok n /\ root H n = htr H t (zero_val t) /\
+            ser_impl H src t n = Ok (ser t (zero_val t), lenN (ser t (zero_val t))).
+Proof. intros H src t. exact (default_encoding H src t). Qed.
+
+(* navigable wherever the type has fixed structure: every container field position and every
+   (composite) vector element position of the default backing holds that field's / element's default *)
+Theorem C12_container_navigable : forall H src fs n, wf_ty (TContainer fs) = true ->
+  default_node H (TContainer fs) = Ok n -> forall i, (i < length fs)%nat ->
+  exists c, getter_i src n (N.of_nat i) (contents_depth (TContainer fs)) = Ok c /\ default_node H (nth i fs TBool) = Ok c.
+Proof. intros H src. exact (default_container_navigable H src). Qed.
+
+Theorem C12_vector_navigable : forall H src e k n, wf_ty (TVector e k) = true -> basic_size e = None ->
+  default_node H (TVector e k) = Ok n -> forall i, i < k ->
+  exists c, getter_i src n i (contents_depth (TVector e k)) = Ok c /\ default_node H e = Ok c.
+Proof. intros H src. exact (default_vector_navigable H src). Qed.
+
 Print Assumptions C12_default_node.
+Print Assumptions C12_default_is_constructed.
+Print Assumptions C12_default_encoding.
+Print Assumptions C12_container_navigable.
+Print Assumptions C12_vector_navigable.
 Print Assumptions C12_zero_wellformed.
 Print Assumptions C12_equals_explicit.
 Print Assumptions C12_nonvacuous.
